@@ -5,6 +5,7 @@ import SageModel.Model.C18
 import SageModel.Drv.C02
 import SageModel.Drv.C06
 import SageModel.Drv.C10
+import SageModel.Drv.C16
 import SageModel.Drv.C17
 import SageModel.Drv.C18
 
@@ -101,7 +102,28 @@ def pRun : P Run := do
   let (prefilter, prefilterChunk) ← match rest with
     | [] => pure (false, 0)
     | _ => do let a ← bool; let b ← nat; pure (a, b)
-  pure { cfg := { cfg with prefilter, prefilterChunk }, fasta, files, planted }
+  let cfg := { cfg with prefilter, prefilterChunk }
+  -- second optional group: LFQ / TMT settings, file formats with their extra (MS1 / MS3) spectra, LFQ claims
+  let rest ← get
+  match rest with
+  | [] => pure { cfg, fasta, files, planted }
+  | _ => do
+    let lfq ← bool; let lfqPeakScoring ← nat; let lfqIntegration ← nat
+    let sa ← nat; let ppm ← pF32R; let lfqCombine ← bool
+    let tmtLevel ← nat; let tmtSn ← bool
+    let fmts ← list (do
+      let format ← nat; let style ← nat; let inj ← list nat
+      let extras ← list (do
+        let level ← nat; let title ← bytes; let rt ← nat
+        let ref ← opt (do let r ← bytes; let mz ← nat; pure (r, mz))
+        let inj ← nat; let noise ← opt nat
+        let peaks ← list (do let a ← nat; let b ← nat; pure (a, b))
+        pure ({ level, title, rt, ref, inj, noise, peaks } : Extra))
+      pure ({ format, style, inj, extras } : FileFmt))
+    let lfqPlanted ← list (do let f ← nat; let p ← bytes; let e ← bool; pure (f, p, e))
+    pure { cfg := { cfg with lfq, lfqPeakScoring, lfqIntegration, lfqSpectralAngle := f64val sa, lfqPpm := ppm, lfqCombine,
+                             tmtLevel, tmtSn },
+           fasta, files, planted, fmts, lfqPlanted }
 
 def pRow : P Row := do
   let psmId ← nat; let peptide ← bytes; let proteins ← bytes; let numProteins ← nat
@@ -130,16 +152,26 @@ def pFrag : P FragRow := do
   pure { psmId, kind, ordinal, charge, mzCalc, mzExp, intensity }
 
 def pTmtRow : P TmtRow := do
-  let filename ← bytes; let scannr ← bytes; let values ← list nat
-  pure { filename, scannr, values }
+  let filename ← bytes; let scannr ← bytes; let inj ← nat; let values ← list nat
+  pure { filename, scannr, inj, values }
+
+def pLfqRow : P LfqRow := do
+  let peptide ← bytes; let charge ← int; let proteins ← bytes; let q ← nat; let score ← nat; let angle ← nat
+  let values ← list nat
+  pure { peptide, charge, proteins, q, score, angle, values }
+
+def pLfq : P (Option LfqTable) := opt (do
+  let fileCols ← list bytes
+  let rows ← list pLfqRow
+  pure ({ fileCols, rows } : LfqTable))
 
 def firstSome {α} (l : List α) (f : α → Option String) : Option String := l.findSome? f
 
 def verdict (run : Run) (impl : List String) : String :=
   match impl with
   | "ok" :: rest =>
-    match runPrefix (do let r ← list pRow; let p ← list pPin; let f ← list pFrag; let t ← list pTmtRow; pure (r, p, f, t)) rest with
-    | some ((rows, pins, frags, tmts), []) =>
+    match runPrefix (do let r ← list pRow; let p ← list pPin; let f ← list pFrag; let t ← list pTmtRow; let l ← pLfq; pure (r, p, f, t, l)) rest with
+    | some ((rows, pins, frags, tmts, lfq), []) =>
       match firstSome rows (fun r => (rowViolation run r).map (fun c => c ++ "@" ++ strOfBytes r.filename ++ ":" ++ strOfBytes r.scannr ++ "#" ++ toString r.rank)) with
       | some c => "bad:row_" ++ c
       | none =>
@@ -155,9 +187,12 @@ def verdict (run : Run) (impl : List String) : String :=
               match plantedViolation run rows with
               | some c => "bad:" ++ c
               | none =>
-                match (if run.cfg.tmt != 0 then tmtViolation run tmts else none) with
+                match (if run.cfg.tmt != 0 then (tmtViolation run tmts).orElse fun _ => tmtJoinViolation run rows tmts else none) with
                 | some c => "bad:" ++ c
-                | none => "ok"
+                | none =>
+                  match lfqViolation run rows lfq with
+                  | some c => "bad:" ++ c
+                  | none => "ok"
     | _ => "bad:unparsable_reply"
   | ["panic"] => "bad:program_panicked"
   | [e] => "bad:program_failed_" ++ e
@@ -206,13 +241,13 @@ def plexOf (n : Nat) : Option (C18.Plex Nat) :=
   | 6 => some .tmt6 | 10 => some .tmt10 | 11 => some .tmt11 | 16 => some .tmt16 | 18 => some .tmt18 | _ => none
 
 /-- `min_deisotope_mz.unwrap_or(0.0)` of `read_processed_spectra` (TMT at MS2 level: heaviest reporter × (1 + 20e-6)) -/
-def minDeisoMzOf (tmt : Nat) : Option F :=
+def minDeisoMzOf (tmt level : Nat) : Option F :=
   if tmt == 0 then some (Float32.ofNat 0) else
   match plexOf tmt with
   | none => none
   | some plex =>
     let labels := (C18.reporterMasses C18.tablesBits plex).map fb
-    some ((C18.minDeisotopeMz labels 2 (C18.c1F + C18.c2F)).getD (Float32.ofNat 0))
+    some ((C18.minDeisotopeMz labels level (C18.c1F + C18.c2F)).getD (Float32.ofNat 0))
 
 /-- the configuration of the composed model; `Except` carries the `model-na` reason -/
 def mkPCfg (c : Cfg) (cf : CfgF) : Except String (PCfg F) := do
@@ -227,7 +262,7 @@ def mkPCfg (c : Cfg) (cf : CfgF) : Except String (PCfg F) := do
     | some l => pure l | none => throw "non-ascii-mod-key"
   let vk ← match allSomeL (c.vars.map fun (k, ms) => (asciiKey k).map fun k' => (k', ms)) with
     | some l => pure l | none => throw "non-ascii-mod-key"
-  let minDeiso ← match minDeisoMzOf c.tmt with | some m => pure m | none => throw "unknown-tmt-plex"
+  let minDeiso ← match minDeisoMzOf c.tmt c.tmtLevel with | some m => pure m | none => throw "unknown-tmt-plex"
   if c.zLo ≥ 64 || c.zHi ≥ 64 || c.isoLo < -8 || c.isoHi > 8 || c.isoLo > c.isoHi then throw "charge-or-isotope-range" else
   if (match c.maxFragCharge with | some m => decide (m ≥ 64) | none => false) then throw "max-fragment-charge" else
   pure
@@ -248,6 +283,78 @@ def mkPCfg (c : Cfg) (cf : CfgF) : Except String (PCfg F) := do
 def specLines (f : List Spectrum) : List (C17.Line F) :=
   mgfLines (f.map fun s => (strOfBytes s.title, fb s.pepmz, s.charge, fb s.rt, s.peaks.map fun p => (fb p.1, fb p.2)))
 
+/-! ### mzML input: the C16 reader model in front of the same pipeline
+
+The harness's mzML rendering (`mzml_text` in harness/src/ops/c01.rs) is mirrored as schema-shaped elements
+(`C16.SpecEl`: cvParams, scan list, precursor list, binary data arrays; payload bytes = little-endian f32 / f64 of the
+values; zlib and base64 are parameters of the C16 model, so a compressed payload is given with its inflation), turned
+into SAX events (`SpecEl.events`) and read by `C16.parse`. Decimal attribute text is Rust's shortest round-trip
+`Display` of an f32 (digits only for integral values — read as `Val.nat` — otherwise `Val.flt`). -/
+
+def valOf (x : F) : C16.Val C16.B32 :=
+  if x.isFinite && x ≥ 0 && x == x.floor && x < 1.0e18 then .nat x.toUInt64.toNat else .flt (C16.B32.of x)
+
+def le32Bytes (x : F) : List UInt8 :=
+  let b := x.toBits.toNat
+  [(b % 256).toUInt8, (b / 256 % 256).toUInt8, (b / 65536 % 256).toUInt8, (b / 16777216 % 256).toUInt8]
+
+def le64Bytes (x : F) : List UInt8 :=
+  let b := x.toFloat.toBits.toNat
+  (List.range 8).map fun i => (b / 256 ^ i % 256).toUInt8
+
+def arrEl (vals : List F) (wide zl : Bool) (kind : C16.Cv) : C16.ArrEl C16.B32 :=
+  let raw := vals.flatMap (if wide then le64Bytes else le32Bytes)
+  { params := [⟨if wide then .f64 else .f32, .garbage, .absent⟩, ⟨if zl then .zlib else .noCompression, .garbage, .absent⟩,
+               ⟨kind, .garbage, .absent⟩]
+    payload := if raw.isEmpty && !zl then .empty else if zl then .data [120] (some raw) else .data raw none }
+
+def bit (n k : Nat) : Bool := (n / 2 ^ k) % 2 == 1
+
+def specEl (style : Nat) (id : List UInt8) (level : Nat) (rt inj : F)
+    (prec : Option (Option (List UInt8) × F × Option Nat)) (noise : Option F) (peaks : List (Nat × Nat)) :
+    C16.SpecEl C16.B32 :=
+  let time : C16.Param C16.B32 :=
+    if bit style 3 then ⟨.scanStart, valOf (rt / 60.0), .minutes⟩ else ⟨.scanStart, valOf rt, .seconds⟩
+  { id := strOfBytes id
+    params := [⟨.msLevel, .nat level, .absent⟩, ⟨.centroid, .garbage, .absent⟩]
+    scans := [[time, ⟨.injectionTime, valOf inj, .absent⟩]]
+    precs := match prec with
+      | none => []
+      | some (ref, mz, z) =>
+        [{ ref := ref.map strOfBytes, iso := [],
+           ions := [[⟨.selMz, valOf mz, .absent⟩] ++ (match z with | some z => [⟨.selCharge, .nat z, .absent⟩] | none => [])],
+           act := [] }]
+    arrays := [arrEl (peaks.map fun p => fb p.1) (bit style 0) (bit style 2) .mzArray,
+               arrEl (peaks.map fun p => fb p.2) (bit style 1) (bit style 2) .intensityArray] ++
+              (match noise with | some n => [arrEl (peaks.map fun _ => n) false (bit style 2) .noiseArray] | none => []) }
+
+/-- the events of one mzML file (MS2 spectra and extras) -/
+def mzmlDoc (f : List Spectrum) (fmt : FileFmt) : List (C16.Event C16.B32) :=
+  (f.zipIdx.flatMap fun sk =>
+    (specEl fmt.style sk.1.title 2 (fb sk.1.rt) (fb (fmt.inj.getD sk.2 0)) (some (none, fb sk.1.pepmz, sk.1.charge)) none
+      sk.1.peaks).events) ++
+  (fmt.extras.flatMap fun e =>
+    (specEl fmt.style e.title e.level (fb e.rt) (fb e.inj) (e.ref.map fun r => (some r.1, fb r.2, none)) (e.noise.map fb)
+      e.peaks).events)
+
+/-- the `RawSpectrum` view shared with the MGF reader model -/
+def ofMzml (s : C16.Spectrum C16.B32) : C17.Spectrum F :=
+  { id := s.id
+    precs := s.precursors.map fun p =>
+      { mz := p.mz.f, intensity := p.intensity.map (·.f), charge := p.charge,
+        window := p.window.map fun w => (C17.WUnit.da, w.1.f, w.2.f) }
+    rt := s.startTime.f, tic := s.tic.f, mzs := s.mz.map (·.f), ints := s.intensity.map (·.f) }
+
+/-- the searched (MS2) spectra of input file `fi`, through the reader model of its format; `none` = the mzML reader
+    model reports an error (the real program would skip the file with an error) -/
+def fileSpectra (run : Run) (fi : Nat) (f : List Spectrum) : Option (List (C17.Spectrum F)) :=
+  let fmt := run.fmt fi
+  if fmt.format == 0 then some (C17.parseLines (specLines f)) else
+  let sn := if run.cfg.tmt != 0 && run.cfg.tmtSn then some run.cfg.tmtLevel else none
+  match C16.parse { filter := none, sn := sn } (mzmlDoc f fmt) with
+  | .ok sps => some ((sps.filter fun s => s.level == 2).map ofMzml)
+  | .error _ => none
+
 /-- a-priori size of the database build (digests × variable-modification placements): the Lean build is
     quadratic in places (target-set lookups), so large configurations are not model-compared -/
 def buildCost (pc : PCfg F) (targets : List (C05.Seq × C05.Seq)) : Nat :=
@@ -266,6 +373,8 @@ def COST_LIMIT : Nat := 60000
 def indexCost (nfrags bucket : Nat) : Nat := nfrags * (nfrags / (max bucket 1) + 1)
 
 def INDEX_LIMIT : Nat := 200000000
+
+def SEARCH_LIMIT : Nat := 8000000
 
 /-! ### comparison of one row -/
 
@@ -328,7 +437,7 @@ def rowDiff (c : Cfg) (m : ModelRow F Float) (r : Row) : Option String :=
   if !sameBits m.matchedIntensityPct r.matchedIntensityPct then some "matched_intensity_pct" else
   none
 
-def fileName (i : Nat) : List UInt8 := bytesOfStr ("file" ++ toString i ++ ".mgf")
+def fileName (run : Run) (i : Nat) : List UInt8 := fileNameOf run i
 
 /-- is the model's answer for this spectrum not determined up to the stated allowances? (near-tie of hyperscores
     among the candidates that decide the report, or a sort-key tie among deisotoped peaks) -/
@@ -359,13 +468,15 @@ structure Cmp where
   diff : Option String := none
 
 /-- compare spectrum by spectrum -/
-def compareRun (c : Cfg) (pc : PCfg F) (w : World F) (files : List (List Spectrum)) (rows : List Row) : Cmp :=
+def compareRun (run : Run) (pc : PCfg F) (w : World F) (rows : List Row) : Cmp :=
+  let c := run.cfg
+  let files := run.files
   let step (acc : Cmp × Nat) (fs : Nat × C17.Spectrum F) : Cmp × Nat :=
     let (cmp, seen) := acc
     if cmp.diff.isSome then acc else
     let (fi, sp) := fs
     let ms := spectrumRows arithF pc w fi sp
-    let fname := fileName fi
+    let fname := fileName run fi
     let scan := bytesOfStr sp.id
     let impl := rows.filter fun r => r.filename == fname && r.scannr == scan
     let d : Option String :=
@@ -380,7 +491,7 @@ def compareRun (c : Cfg) (pc : PCfg F) (w : World F) (files : List (List Spectru
       if undetermined pc w sp then ({ cmp with rows := cmp.rows + ms.length, ties := cmp.ties + 1 }, seen + impl.length)
       else ({ cmp with diff := some (col ++ "@" ++ strOfBytes fname ++ ":" ++ sp.id) }, seen)
   let specs : List (Nat × C17.Spectrum F) :=
-    files.zipIdx.flatMap fun fi => (C17.parseLines (specLines fi.1)).map fun sp => (fi.2, sp)
+    files.zipIdx.flatMap fun fi => ((fileSpectra run fi.2 fi.1).getD []).map fun sp => (fi.2, sp)
   let (cmp, seen) := specs.foldl step ({}, 0)
   if cmp.diff.isSome then cmp else
   -- every implementation row belongs to a spectrum the model searched
@@ -408,13 +519,15 @@ def modelCompare (run : Run) (args impl : List String) : String × Bool :=
         | some db =>
         let nfr := (ionsOf arithF pc db).length
         if indexCost nfr pc.bucket > INDEX_LIMIT then ("model-na:too-large", true) else
+        -- searches: a page access of the list-based index is linear in the fragment count
+        if (run.files.map (·.length)).sum * nfr > SEARCH_LIMIT then ("model-na:too-large", true) else
         match worldOf arithF pc db with      -- `buildWorld` = `buildDb` then `worldOf`
         | none => ("panic", impl == ["panic"])
         | some w =>
           match implRows impl with
           | none => ("rows-expected", false)
           | some rows =>
-            let cmp := compareRun run.cfg pc w run.files rows
+            let cmp := compareRun run pc w rows
             match cmp.diff with
             | some d => ("diff:" ++ d, false)
             | none => (s!"rows={cmp.rows} compared={cmp.compared} ties={cmp.ties} cost={buildCost pc targets} peps={w.peps.size} frags={w.idx.frags.length}", true)
@@ -424,7 +537,19 @@ def handle (op : String) (args impl : List String) : Option Reply :=
   | "e2e" => do
     let run ← Proto.run pRun args
     let (model, agree) := modelCompare run args impl
-    pure { model := model, agree := agree, spec := verdict run impl }
+    -- evidence of non-vacuity of the quantification clauses (informational, part of the model reply text)
+    let extra : String :=
+      match impl with
+      | "ok" :: rest =>
+        match runPrefix (do let r ← list pRow; let _ ← list pPin; let _ ← list pFrag; let t ← list pTmtRow; let l ← pLfq; pure (r, t, l)) rest with
+        | some ((rows, tmts, lfq), _) =>
+          (if run.cfg.tmt != 0 then s!" tmt_rows={tmts.length}" else "") ++
+          (match lfq with
+           | some t => s!" lfq_rows={t.rows.length} lfq_claims={run.lfqPlanted.length} lfq_claims_live={lfqClaimsLive run rows}"
+           | none => "")
+        | none => ""
+      | _ => ""
+    pure { model := model ++ extra, agree := agree, spec := verdict run impl }
   | _ => none
 
 end Sage.C01
